@@ -84,7 +84,7 @@ func Harness_position() {
 	b.add("(do")
 	b.filler("u0", max, true)
 	fault := faults[vrt.Concrete(vrt.Choice("fault", len(faults)))]
-	wrapper := vrt.Concrete(vrt.Choice("wrapper", 11))
+	wrapper := vrt.Concrete(vrt.Choice("wrapper", 13))
 	var faultLine int
 	var form span
 	putFault := func(tag string) {
@@ -149,10 +149,18 @@ func Harness_position() {
 		b.add("))")
 	case 9:
 		b.add("(f 1)")
-	default:
+	case 10:
 		b.add("((mk) 1)")
+	case 11: // a closure handed as the last argument to a builtin that calls it back
+		b.add("(swap! (atom 0) (fn [x]")
+		putFault("in")
+		b.add("))")
+	default: // ... and to update
+		b.add("(update {:k 1} :k (fn [x]")
+		putFault("in")
+		b.add("))")
 	}
-	if wrapper < 9 {
+	if wrapper < 9 || wrapper > 10 {
 		form = span{start, b.line}
 	}
 	b.filler("u2", max, true)
